@@ -197,7 +197,24 @@ func c16Observe(sp lib.Spec) (string, lib.Obs) {
 	for i := range buf {
 		buf[i] = '#'
 	}
-	return astString(an, astOpts{}), ao
+	first := astString(an, astOpts{})
+	// asked again - after Check and Example were used on the same object for every third schema -
+	// the AST is the same tree, and the tree handed out before has not changed
+	if mon.HashString(sp.Text)%3 == 0 {
+		lib.Safe(s.Check)
+		lib.SafeVal(s.Example)
+	}
+	an2, ao2 := lib.SafeVal(s.GetAST)
+	if !ao2.OK {
+		return first, lib.Obs{Code: -1, Pos: -1, Panic: "the second GetAST() on the same schema object fails: " + ao2.String()}
+	}
+	if second := astString(an2, astOpts{}); second != first {
+		return first, lib.Obs{Code: -1, Pos: -1, Panic: "the second GetAST() on the same schema object differs from the first: " + firstDiff(first, second)}
+	}
+	if again := astString(an, astOpts{}); again != first {
+		return first, lib.Obs{Code: -1, Pos: -1, Panic: "the AST handed out by the first GetAST() changed after later calls: " + firstDiff(first, again)}
+	}
+	return first, ao
 }
 
 func c16Run(c *mon.Ctx, unit int) {
